@@ -520,7 +520,7 @@ def to_src(v, mat: Materialised | None = None) -> str:
 LOOKALIKE_STRINGS = ["1", "1.0", "null", "None", "true", "True", "false", "[1]", '{"a":1}', "2020-01-01",
                      "PT1S", "12:00:00", "ab", "a", "", " ", "\t", "1,2", "(1, 2)", "-1", "1e5", "0x10", "nan",
                      "inf", "Infinity", '"quoted"', "'q'", "\x00", "é", "\u2028", "日本", "P1D", "[]", "{}", "()",
-                     "1_000", "0", "00", "+1", "2020-01-01T00:00:00+00:00", "a b"]
+                     "1_000", "0", "00", "+1", "2020-01-01T00:00:00+00:00", "a b", "_k", "__", "_", "_private"]
 
 
 def _tz():
@@ -991,6 +991,8 @@ def enum_specs(draw, names: Names, mod=0):
         if draw(st.booleans()):
             pair.reverse()
         vals = pair + [v for v in vals if v not in pair][:1]
+    if fl != "int" and len(vals) >= 2 and draw(st.integers(0, 5)) == 0:
+        vals = ["M1", *[v for v in vals[1:] if v != "M1"]]  # the value of the first member spells the *name* of the second
     # Enum aliases (equal values) collapse members: keep values pairwise != (1 == True == 1.0)
     uniq = []
     for v in vals:
@@ -1139,6 +1141,13 @@ def specs(draw, names: Names | None = None, *, max_depth=3, hashable=False, key=
             inner = {"k": "ref", "name": n_, "mod": m_}
             if k == "newtype" and names.flavour.get((m_, n_), "").startswith("typeddict"):
                 k = "alias"
+        elif max_depth >= 2 and draw(st.integers(0, 3)) == 0:
+            # a wrapper directly over another wrapper (alias of an alias, alias of a NewType, NewType of a NewType ...)
+            ik = draw(st.sampled_from(["newtype", "alias", "stralias"]))
+            body = draw(sub(hashable=hashable, recursion=False, wrappers=False))
+            if ik == "newtype" and (strip(body)["k"] in ("optional", "union", "literal") or (strip(body)["k"] == "class" and strip(body)["flavour"].startswith("typeddict"))):
+                ik = "alias"
+            inner = {"k": ik, "name": names.fresh({"newtype": "NT", "alias": "AL", "stralias": "SA"}[ik]), "mod": draw(st.integers(0, mods - 1)), "a": [body]}
         else:
             inner = draw(sub(hashable=hashable, recursion=False))
         if k == "newtype" and strip(inner)["k"] in ("optional", "union", "literal", "typeddict"):
@@ -1323,7 +1332,7 @@ def deep_value(spec, mat: Materialised, d: int, fan: int = 2, _counter=None, _le
         return tuple(D(s) for s in spec["a"])
     if k == "dict":
         try:
-            return {f"k{i}": D(spec["a"][1], d if i == 0 else side) for i in range(width)} if strip(spec["a"][0]) == S("str") else {D(spec["a"][0]): D(spec["a"][1])}
+            return {("_k" if i == 0 else f"k{i}"): D(spec["a"][1], d if i == 0 else side) for i in range(width)} if strip(spec["a"][0]) == S("str") else {D(spec["a"][0]): D(spec["a"][1])}
         except _Stop:
             return {}
     if k == "optional":
